@@ -452,7 +452,7 @@ func c11Random(rng *rand.Rand) *c11In {
 			}
 		}
 		if rng.Intn(3) == 0 {
-			p.HasEp, p.Ep = true, []int32{-1, 0, 1, 5}[rng.Intn(4)]
+			p.HasEp, p.Ep = true, []int32{-1, 0, 1, 5, -2, 2147483647, -2147483647}[rng.Intn(7)] // extremes: keys must be compared, not subtracted
 		}
 		if rng.Intn(3) == 0 {
 			p.HasLp, p.Lp = true, []int64{1000, 5000, 5500, 9999}[rng.Intn(4)]
